@@ -4,4 +4,5 @@ import OsyrisProofs.C07
 import OsyrisProofs.C08
 import OsyrisProofs.C09
 import OsyrisProofs.C10
+import OsyrisProofs.C17
 import OsyrisProofs.C20
